@@ -7,6 +7,6 @@ name, seed, n, hosts, family, depth, steps = sys.argv[1], int(sys.argv[2]), int(
 lib.build_harness()
 run = lib.Run("TRY", "quick", seed)
 t = time.time()
-props.random_round(run, name, seed, n, hosts, family, depth, steps)
+props.random_round(run, name, seed, n, hosts, family, depth, steps, bad=float(os.environ.get("TRY_BAD","0")))
 print("violations", run.violations, "traces", run.traces, "fifo_mismatch", run.fifo_mismatch, "inconclusive", run.inconclusive, round(time.time() - t, 1), "s")
 for s in run.stages: print(s)
